@@ -24,7 +24,7 @@ ASSUMPTIONS = [
     "bitwise comparison of twins is legitimate because both sides run the same code on the same inputs",
 ]
 TIERS = {"quick": {"runs": 1200}, "thorough": {"runs": 40000}}
-REQUIRED = ["restart_partial", "restart_wrapped", "restart_exactly_full", "restart_mid_episode", "restart_nonuniform_priorities", "sample_after_restart", "update_after_restart"]
+REQUIRED = ["reloads_checked", "reload_pickle", "reload_orbax", "reload_standard", "saves_of_different_states", "restart_partial", "restart_wrapped", "restart_exactly_full", "restart_mid_episode", "restart_nonuniform_priorities", "sample_after_restart", "update_after_restart"]
 REQUIRED_QUICK = REQUIRED
 SHRINK_LISTS = [["ops"]]
 SHRINK_INTS = [(["n_tasks"], 0), (["obs_dim"], 0), (["act_dim"], 0)]
@@ -32,6 +32,11 @@ CLAUSES = ["twin", "len", "membership", "fields", "stale", "written", "task", "l
 
 
 def make_plan(rng, tier, index):
+    if index % 16 == 15:
+        from rlsim import modsim
+        plan = modsim.make_plan(rng)
+        plan["check"] = PROPERTY
+        return plan
     cls = rng.choice(["ReplayBuffer", "LAP", "PrioritizedReplayBuffer", "SubtrajectoryReplayBuffer", "SubtrajectoryReplayBufferPER"])
     family = "sub" if cls.startswith("Sub") else "flat"
     prio = cls in ("LAP", "PrioritizedReplayBuffer", "SubtrajectoryReplayBufferPER")
